@@ -112,3 +112,12 @@ func (l *ReplLog) endTxn(s *Server) {
 	}
 	l.raw(l.lastDB, bs("EXEC"))
 }
+
+// propExpire propagates the DEL a master emits when a command touches a key whose expiry has
+// passed (expireIfNeeded -> propagateDeletion), in front of that command's own effects. Inside a
+// transaction the DEL lands inside the MULTI/EXEC block on every version: Redis >= 7 collects
+// everything EXEC propagates in one block; Redis 6 emits the MULTI before it calls the first write
+// command and feeds the expiry DEL to the stream during that call.
+func (s *Server) propExpire(db int, key string) {
+	s.prop(db, bs("DEL", key))
+}
